@@ -124,9 +124,9 @@ PROPS = {
     },
     "C10": {
         "n_quick": 1500, "n_thorough": 37500,
-        "technique": 'Coq proof (table invariant by induction over histories) + correspondence against tree matching',
-        "level_text": 'proof (partial): C10_miss_is_tree and the table invariant (entries are registered, fully static, unconstrained routes keyed by their text) over all histories; the full serve = serve_tree needs the tree invariants of add_route and is checked by correspondence, not yet proved',
-        "level_note": 'trusts Coq kernel, extraction, glue',
+        "technique": 'Coq proof (router invariant by induction over registration/Headers histories; static lookup through the priority-sorted tree) + correspondence against tree matching',
+        "level_text": 'proof: C10_unobservable - for every router state reachable by any history of successful registrations and Headers() calls, every method, path and header set, serve = serve_tree (same route, empty parameters, same header gating); rests on C10_invariant (every method tree well-formed and priority-sorted, every table entry a registered fully static unconstrained route whose own kind path is in the tree of that method) and on static_lookup (tree matching of the literals of a static path returns that route first); tied to the code by histories whose every request outcome is compared with the model and with the model tree matcher',
+        "level_note": 'trusts Coq kernel, extraction, glue; hypothesis on registered segments: their canonical text is injective and identifiers are non-empty and slash-free (what the parser produces, C06)',
         "rule": "random registration/Headers/request histories: 1-7 registrations from a collision-rich segment pool (statics incl. regex metacharacters, placeholders, regex segments with several binds / inner groups / random regex ASTs, match-all with capture 1|2|-1|3x, optional last segment, trailing slash), methods GET/other/Any/lower-case, ~8% ill-formed registrations; requests = instances of registered routes (regex parts sampled from the AST), perturbed instances, random segment strings; static-heavy route sets, paths equal to route texts (incl. '?'), extra leading/trailing slashes. After a rejected registration the run continues on an instance rebuilt from the accepted operations (AddRoute is not atomic, F11). Non-trivial: a request answered from the shortcut table.",
         "what": "outcome of every request vs model; spec: equals the model's full tree matching for the same method and path",
         "assumes": [],
